@@ -103,6 +103,72 @@ def _job(job) -> List[Dict[str, Any]]:
     return out
 
 
+import re as _re
+
+_NAMES = _re.compile(r"'(?:t|p|\$k|k)\d+'|#v\d+|, \d+\)")
+
+
+def _store_trace(oc, atom_map) -> Dict[Any, set]:
+    """(function, statement, field) -> set of position-erased normal forms of the values stored into the passed ratings."""
+    from ..poly import freeze, to_poly
+
+    tr: Dict[Any, set] = {}
+    for ev in oc.I.events:
+        if ev.kind != "write" or ev.data["origin"] != "input:player" or ev.data["field"] not in ("mu", "sigma"):
+            continue
+        v = ev.data.get("val")
+        sym = getattr(v, "sym", None)
+        pol = to_poly(sym, atom_map) if sym is not None else None
+        form = None if pol is None else _NAMES.sub("_", repr(freeze(pol)))
+        tr.setdefault((where(ev)[1], norm_text(ev.node, 100), ev.data["field"]), set()).add(form)
+    return tr
+
+
+def _equiv_job(job) -> List[Dict[str, Any]]:
+    """R15.5: a call that leaves the option at None on a model whose setting is X stores the same terms as a call that
+    passes X (the model-level atoms renamed to the argument's): None -> model setting is a pure substitution."""
+    idx, ls = job
+    prog = Program()
+    roles = prog.roles()[idx]
+    entry = f"{roles.model.name}.rate"
+    mod = roles.model.module.name
+    line = roles.model.lookup("rate").node.lineno
+    base = dict(rule="R15.5", module=mod, function=entry, line=line, detail={})
+    c = f"limit_sigma {'on' if ls else 'off'}: model-level setting with the argument at None == the same setting passed per call"
+    try:
+        a = run_op(prog, roles, "rate", ranks="list-of-mixed-int-float-bool", tau="None", limit_sigma="None",
+                   model_overrides={"limit_sigma": Bool(ls, frozenset({"CTOR:limit_sigma"}), ("param", "model.limit_sigma"))})
+        b = run_op(prog, roles, "rate", ranks="list-of-mixed-int-float-bool", tau="truthy", limit_sigma="truthy" if ls else "falsy")
+    except Exception as e:
+        return [dict(base, verdict="UNDECIDED", construct=c, message=f"abstract evaluation failed: {type(e).__name__}: {e}")]
+    if a.undecided or b.undecided or not a.returned or not b.returned:
+        return [dict(base, verdict="UNDECIDED", construct=c, message="; ".join((a.undecided + b.undecided)[:3]) or "rate does not return")]
+
+    def to_arg(atom):
+        if atom == ("param", "model.tau"):
+            return ("param", "arg.tau")
+        return atom
+
+    ta, tb = _store_trace(a, to_arg), _store_trace(b, to_arg)
+    out = []
+    for key in sorted(set(ta) | set(tb), key=repr):
+        fa, fb = ta.get(key), tb.get(key)
+        fn, text, fld = key
+        if fa is None or fb is None:
+            out.append(dict(base, verdict="VIOLATED", function=fn, construct=f"{text} [{'on' if ls else 'off'}]",
+                            message=f"this store to a rating's {fld} happens only when the setting comes from the {'model' if fb is None else 'argument'}: leaving the option at None does not mean what passing the model's setting means"))
+            continue
+        if None in fa or None in fb:
+            continue  # no symbolic term on one side: not compared (counted in the evidence)
+        if fa != fb:
+            out.append(dict(base, verdict="VIOLATED", function=fn, construct=f"{text} [{'on' if ls else 'off'}]",
+                            message=f"the value stored into {fld} differs between 'option None, model setting X' and 'option X': " + str(sorted(fa ^ fb))[:300]))
+    if not out:
+        compared = sum(1 for k in ta if k in tb and None not in ta[k] and None not in tb[k])
+        out.append(dict(base, verdict="HOLDS" if compared else "UNDECIDED", construct=c, message="" if compared else "no store with a symbolic term on both sides", detail={"stores_compared": compared, "stores": len(ta)}))
+    return out
+
+
 def run(prog: Program, rep: Report, tier: str = "quick") -> None:
     roles = prog.roles()
     rep.explanation = (
@@ -125,7 +191,7 @@ def run(prog: Program, rep: Report, tier: str = "quick") -> None:
             jobs.append((i, t, l, None))
             jobs.append((i, t, l, "scores"))
     seen = set()
-    for lst in parallel_map(_job, jobs):
+    for lst in parallel_map(_job, jobs) + parallel_map(_equiv_job, [(i, ls) for i in range(len(roles)) for ls in (True, False)]):
         for d in lst:
             key = (d["rule"], d["verdict"], d["module"], d["function"], d["construct"], d.get("model", ""))
             if key in seen:
@@ -135,3 +201,4 @@ def run(prog: Program, rep: Report, tier: str = "quick") -> None:
     n = len(roles)
     rep.floor("R15.1", 25 * n)
     rep.floor("R15.3", 2 * n)
+    rep.floor("R15.5", 2 * n)
